@@ -54,6 +54,7 @@ type ExploreStats struct {
 	SleepBlocked int  // executions cut by the sleep sets (redundant prefixes)
 	Diverged     bool // executions were not reproducible (global state survives between executions): the search was abandoned
 	SelectSeen   bool // mode A was abandoned because the program executes a select statement
+	Unmodelled   string // an execution met something the runtime model does not cover: the search of this program was stopped
 	GlobalsReset bool // the exploration was redone with the package-level state reset before every execution
 }
 
@@ -135,6 +136,10 @@ func exploreOnce(prog Program, opts ExploreOpts) ExploreStats {
 				ex.Diverged = true
 			}
 		}
+		if ex.Unmodelled != "" {
+			stats.Unmodelled, stats.Complete = ex.Unmodelled, false
+			return stats
+		}
 		if ex.Diverged {
 			stats.Diverged = true
 			stats.Complete = false
@@ -210,6 +215,9 @@ func exploreOnce(prog Program, opts ExploreOpts) ExploreStats {
 func Replay(prog Program, choices []int, race, elide, trace bool) (*Exec, []string) {
 	threads, judge := prog()
 	ex := RunOnce(Config{Elide: elide, Race: race, Trace: trace}, choices, threads)
+	if ex.Unmodelled != "" {
+		return ex, nil
+	}
 	return ex, judge(ex)
 }
 
@@ -241,6 +249,10 @@ func exploreSleep(prog Program, opts ExploreOpts) ExploreStats {
 		threads, judge := prog()
 		cfg := Config{Elide: opts.Elide, Race: opts.Race, FuelTotal: opts.FuelTotal, Sleep: true, Installs: it.installs}
 		ex := RunOnce(cfg, it.prefix, threads)
+		if ex.Unmodelled != "" {
+			stats.Unmodelled, stats.Complete = ex.Unmodelled, false
+			return stats
+		}
 		if ex.Diverged {
 			stats.Diverged = true
 			stats.Complete = false
@@ -356,6 +368,10 @@ func exploreDPOR(prog Program, opts ExploreOpts) ExploreStats {
 		threads, judge := prog()
 		cfg := Config{Elide: opts.Elide, Race: opts.Race, FuelTotal: opts.FuelTotal, Sleep: true, Installs: installs}
 		ex := RunOnce(cfg, prefix, threads)
+		if ex.Unmodelled != "" {
+			stats.Unmodelled, stats.Complete = ex.Unmodelled, false
+			return stats
+		}
 		stats.Executions++
 		stats.Points += len(ex.Points)
 		if len(ex.Points) > stats.MaxPoints {
